@@ -119,9 +119,21 @@ def run(ctx):
                 for t in (n.targets if isinstance(n, ast.Assign) else [n.target]):
                     if (astx.attr_path(t) or "").startswith("self._network"):
                         effs.append(rules.Effect(n, "rebind", "self", txt(t)))
+        # a name that is the caller's graph on SOME path (`G = self._network.G; if ..: G = G.copy()`) and is edited afterwards
+        cond_alias = [nm for nm, sites in sc.assigns.items() if len(sites) > 1 and any((astx.attr_path(getattr(s_, "value", None)) or "").startswith("self._network") for s_ in sites)]
+        cond_effs = []
+        for nm in cond_alias:
+            try:
+                cond_effs += [(nm, e) for e in rules.effects_on(prog, rw, [nm], scope=sc) if e.root == nm]
+            except Exception:
+                pass
         if effs:
             for e in effs:
                 o.violated(rw, e.node, f"the caller's network is modified: {e.kind} on {e.path}")
+        elif cond_effs:
+            nm, e = cond_effs[0]
+            o.violated(rw, e.node, f"`{nm}` is the caller's own graph on the path where it is not copied (the copy is conditional), and `{txt(e.node)[:50]}` edits it: "
+                                   "the input network is rewired in place", shape_free=True)
         elif G is None:
             bad = [nm for nm in net_aliases if any(x.root == nm for x in rules.effects_on(prog, rw, [nm], scope=sc))]
             rets_ = [n for n in astx.walk_fn(rw.node) if isinstance(n, ast.Return) and isinstance(n.value, ast.Name)]
